@@ -516,7 +516,7 @@ func (c *Ctx) Report(o Oracle, cands map[string][]candidate) int {
 
 // Minimise shrinks while the SAME signature persists (never on a run that merely passes).
 func (c *Ctx) Minimise(o Oracle, w *Worker, cs *Case, f *Finding) (*Case, *Finding) {
-	deadline := time.Now().Add(90 * time.Second)
+	deadline := time.Now().Add(envDur("VERIF_SHRINK_BUDGET", 30*time.Second))
 	steps := 0
 	for improved := true; improved && time.Now().Before(deadline); {
 		improved = false
